@@ -859,3 +859,46 @@ TWINS["C08"] = [
     TW("discount-commuted",
        (PB, "bsa_vf = sa_rf[None, :, :] + pomdp.discount_rate * bsa_fut_vf", "bsa_vf = bsa_fut_vf * pomdp.discount_rate + sa_rf[None, :, :]")),
 ]
+
+# ----------------------------------------------------------------------------------- C09
+GA = A + "fscgradientascent.py"
+BPI = A + "fscboundedpolicyiteration.py"
+FSC = C + "pomdp/finitestatecontroller.py"
+MUTANTS["C09"] = [
+    M("chain-output-transposed", ["TEN-1"],
+      (GA, "'na,sat,ato,naom->nsmt'", "'na,sat,ato,naom->nstm'")),
+    M("chain-observation-of-source", ["TEN-1", "TEN-2"],
+      (GA, "'na,sat,ato,naom->nsmt'", "'na,sat,aso,naom->nsmt'")),
+    M("system-no-discount", ["BEL-2"],
+      (GA, "torch.eye(crossprod, dtype=dtype) - pomdp.discount_rate * Tmu.view((crossprod, crossprod))", "torch.eye(crossprod, dtype=dtype) - Tmu.view((crossprod, crossprod))")),
+    M("reward-not-policy-weighted", ["BEL-2"],
+      (GA, "    Cmu = fsc_action@R.T\n", "    Cmu = (R.T).mean(0, keepdim=True).expand(ncontroller, -1)\n")),
+    M("expected-value-ignores-initial-node", ["INIT-1"],
+      (GA, "    state_value = fsc_initial_state @ V\n", "    state_value = V[0]\n")),
+    M("action-mixture-labels", ["EXEC-1"],
+      (FSC, "            a: action_dist[ai] for ai, a in enumerate(self.pomdp.action_list)", "            a: action_dist[-1 - ai] for ai, a in enumerate(self.pomdp.action_list)")),
+    M("node-update-index-swapped", ["IDX-1"],
+      (FSC, "        return ag @ self.observation_strategy[:, ai, oi]", "        return ag @ self.observation_strategy[:, oi, ai]")),
+    M("bpi-value-not-refreshed", ["CFG-3"],
+      (BPI, "                    r.add_to_fsc(fsc_action, fsc_state, inplace=True)\n                    V = value(fsc_action, fsc_state)\n", "                    r.add_to_fsc(fsc_action, fsc_state, inplace=True)\n")),
+    M("bpi-value-not-refreshed-after-new-node", ["CFG-3"],
+      (BPI, "                    ncontroller += 1\n                    V = value(fsc_action, fsc_state)\n", "                    ncontroller += 1\n")),
+    M("bpi-reports-other-value", ["WIRE-1"],
+      (BPI, "            value=fsc_initial_state@initial_controller_values,", "            value=initial_controller_values.max() if converged else initial_controller_values.mean(),")),
+    M("bpi-returns-initial-strategies", ["WIRE-1"],
+      (BPI, "            policy=StochasticFiniteStateController(pomdp, fsc_action, fsc_state, fsc_initial_state),", "            policy=StochasticFiniteStateController(pomdp, sample_distribution(ncontroller, nactions), fsc_state, fsc_initial_state),")),
+    M("bpi-strategies-unnormalised", ["VALID-1"],
+      (BPI, "            return d / d.sum(axis=-1, keepdims=True)", "            return d / d.sum()")),
+    M("ga-stale-value", ["CFG-3"],
+      (GA, "        return Result(\n            value=value(),", "        return Result(\n            value=result,")),
+    M("ga-returns-logits", ["VALID-1", "WIRE-1"],
+      (GA, "                fsc_action_logit.softmax(-1),\n                fsc_state_logit.softmax(-1),\n                fsc_initial_state_logit.softmax(-1),\n            ),\n            controller_logit",
+       "                fsc_action_logit.softmax(-1),\n                fsc_state_logit.softmax(0),\n                fsc_initial_state_logit.softmax(-1),\n            ),\n            controller_logit")),
+    M("rollout-observation-of-previous-state", ["OBS-1"],
+      (C + "pomdp/policy.py", "o = pomdp.observation_dist(a, ns).sample(rng=rng)", "o = pomdp.observation_dist(a, s).sample(rng=rng)")),
+]
+TWINS["C09"] = [
+    TW("chain-letters-renamed", (GA, "'na,sat,ato,naom->nsmt'", "'qa,sat,atz,qazm->qsmt'")),
+    TW("discount-commuted",
+       (GA, "torch.eye(crossprod, dtype=dtype) - pomdp.discount_rate * Tmu.view((crossprod, crossprod))", "torch.eye(crossprod, dtype=dtype) - Tmu.view((crossprod, crossprod)) * pomdp.discount_rate")),
+]
